@@ -90,6 +90,16 @@ def content(kind, n, c, r=None):
     return bytes(base)
 
 
+_BIG = {}
+
+
+def big_content(n):
+    if n not in _BIG:
+        unit = bytes((i * 37 + 11) % 251 + 1 for i in range(1009))
+        _BIG[n] = (unit * (n // len(unit) + 1))[:n - 2] + bytes([n & 0xFF, (n >> 8) & 0xFF])[:min(2, n)]
+    return _BIG[n]
+
+
 def gen_tree(r, depth, c, budget, force_dir=False):
     """budget: [remaining number of large files] (only matters for the 64000-byte chunk)"""
     k = r.below(10)
@@ -117,7 +127,50 @@ def gen_tree(r, depth, c, budget, force_dir=False):
         if name not in used:
             used.add(name)
             entries.append((name, sub))
+    if r.chance(1, 2):
+        add_colliders(r, entries, c)
     return ("D", entries)
+
+
+def colliders(n):
+    """names that collide with `n` under the usual temporary-name schemes (write-then-rename, editors, backups)"""
+    return [n + ".part", n + ".tmp", n + "~", "." + n + ".swp", n + ".bak", n + ".new", n + ".0", "#" + n + "#",
+            n + ".partial"]
+
+
+def add_colliders(r, entries, c):
+    """next to some entries put siblings whose names differ only by a temp-name scheme: files next to files, a file next
+    to a directory, a directory next to a file; inserted before or after (creation order, hence listing order, varies)"""
+    used = set(n for n, _t in entries)
+    for name, sub in list(entries):
+        if sub[0] == "X" or not r.chance(1, 2):
+            continue
+        for other in r.shuffle(colliders(name))[:r.range(1, 3)]:
+            if other in used:
+                continue
+            used.add(other)
+            if r.chance(1, 5):
+                new = ("D", [("in", ("F", content(r.choice(CONTENT_KINDS), r.choice([0, 1, c, c + 1]) % 1000, c, r)))])
+            else:
+                new = ("F", content(r.choice(CONTENT_KINDS), r.choice([0, 1, c, c + 1, 2 * c]) % 1000, c, r))
+            entries.insert(r.below(len(entries) + 1), (other, new))
+    return entries
+
+
+def collision_tree(reverse):
+    """fixed corpus: three bases (a file, a directory, a dotted file name) each with every colliding sibling, a directory
+    and a file differing only by such a suffix, at depth 0 and nested; `reverse` flips the creation order"""
+    def level(tag):
+        es = [("x", ("F", b"x-" + tag)), ("y", ("D", [("in", ("F", b"y-in-" + tag))])), ("data.bin", ("F", b"data-" + tag * 3))]
+        for base in ("x", "y", "data.bin"):
+            for k, n in enumerate(colliders(base)):
+                es.append((n, ("F", ("%s/%d/" % (n, k)).encode() + tag)))
+        es += [("z.part", ("D", [("in", ("F", b"zp-" + tag))])), ("z", ("F", b"z-" + tag)),
+               ("w", ("D", [])), ("w.tmp", ("F", b"wt-" + tag)), ("v.new", ("D", [])), ("v", ("F", b"v" + tag))]
+        return es
+    inner = level(b"nested")
+    top = level(b"top") + [("d1", ("D", [("d2", ("D", inner[::-1] if reverse else inner))]))]
+    return ("D", top[::-1] if reverse else top)
 
 
 def materialize(path, tree):
@@ -388,6 +441,20 @@ def boundary_cases():
                                 tree=("F", content(kind, n, 64000))))
             out.append(dict(direction="upload_file" if kind in ("zeros", "dup") else "download_file", chunk=None,
                             filter="N", ignore_invalid=False, tree=("F", content(kind, n, 64000))))
+    # names colliding under temp-name schemes, both creation orders, both directions
+    for d in ("upload", "download"):
+        for rev in (False, True):
+            out.append(dict(direction=d, chunk=7, filter="N", ignore_invalid=False, tree=collision_tree(rev)))
+            out.append(dict(direction=d, chunk=None, filter="S" + b".tmp".hex(), ignore_invalid=False,
+                            tree=collision_tree(rev)))
+    # chunk sizes ABOVE the stream chunk (consts.STREAM_CHUNK = 64000), file sizes around and above it
+    for c in (64001, 100000, 128000, 1048576):
+        for n in (63999, 64000, 64001, 128000, 128001, 200000):
+            for d in ("upload_file", "download_file"):
+                out.append(dict(direction=d, chunk=c, filter="N", ignore_invalid=False, tree=("F", big_content(n))))
+    bigt = ("D", [("a", ("F", big_content(128001))), ("d1", ("D", [("b", ("F", big_content(64000))), ("c", ("F", b"c"))]))])
+    for d in ("upload", "download"):
+        out.append(dict(direction=d, chunk=100000, filter="N", ignore_invalid=False, tree=bigt))
     zt = ("D", [("z1", ("F", bytes(14))), ("z2", ("F", content("last0", 21, 7))), ("d1", ("D", [
         ("nl", ("F", content("crlf", 15, 7))), ("dup", ("F", content("dup", 28, 7))), ("ff", ("F", b"\xff" * 7))]))])
     for d in ("upload", "download"):
@@ -436,6 +503,10 @@ def correspondence(ctx):
               "x ignore_invalid x both directions; top-level file / fifo / dangling link / missing path; empty tree; "
               "existing empty destination; then seeded trees (depth <= 4, fan-out <= 4, empty dirs, fifos, dangling links, "
               "names with the filtered suffix/prefix on files and directories) x chunk x filter x direction. "
+              "Sibling names colliding under temp-name schemes (x with x.part, x.tmp, x~, .x.swp, x.bak, x.new, x.0, #x#, "
+              "x.partial; file vs directory differing by such a suffix) in a fixed corpus tree at depth 0 and nested, both "
+              "creation orders, and sprinkled into seeded trees. Chunk sizes above the stream chunk (64001, 100000, 128000, "
+              "1048576) x sizes {63999, 64000, 64001, 128000, 128001, 200000}, both directions. "
               "File contents: random, all zeros, last / last complete / first / middle chunk all zeros, one repeated "
               "byte (00, ff, 0a, 0d), CR/LF-heavy, every chunk equal to the previous one, a zero-free pattern - at every "
               "boundary size for chunk 1, 2, 7 and at c, 2c, 3c+1 for the others, both directions. "
